@@ -164,7 +164,14 @@ impl Module {
             || input
                 .attrs
                 .iter()
-                .any(|a| a.path().to_token_stream().to_string() == "diplomat :: bridge");
+                .any(|a| {
+                    // `diplomat::bridge`, also when written as the fully qualified `::diplomat::bridge`
+                    let segments = &a.path().segments;
+                    segments.len() == 2
+                        && segments[0].ident == "diplomat"
+                        && segments[1].ident == "bridge"
+                        && segments.iter().all(|s| s.arguments.is_none())
+                });
 
         let mod_attrs: Attrs = (&*input.attrs).into();
 
